@@ -92,7 +92,8 @@ def strategy(cell, tier):
     parts = [st.fixed_dictionaries({"a": gen.vec((s,)), "kl": st.floats(0.2, 2.8), "kt": st.floats(0.1, 30.0),
                                     "lspell": st.sampled_from(("z", "pz", "theta", "eta", None)),
                                     "tspell": st.sampled_from(("t", "e", "E", "energy", "tau", "m", "M", "mass", None)),
-                                    "other_dim": st.sampled_from((2, 3, 4))}) for s in strata]
+                                    "other_dim": st.sampled_from((2, 3, 4)), "other_sys": st.integers(0, 11),
+                                    "other_mom": st.booleans(), "other_np": st.booleans()}) for s in strata]
     return st.tuples(*parts).map(list)
 
 
@@ -317,14 +318,26 @@ def _check_to(cell, ctx, fail, v, idx, subs, rows, exact, be, mp_, mom, tol, sa,
             ctx.nontrivial(key=[cell["id"], [float(x) for x in rows[i]], sorted(kwargs)], sample={"stored": [float(x) for x in rows[i]], "kwargs": sorted(kwargs)})
 
 
-def _check_dim(cell, ctx, fail, v, idx, subs, rows, exact, be, mp_, mom, tol, sa, d, s0):
+def _check_dim(cell, ctx, fail, v, idx, subs, rows, exact, be, mp_, mom, tol, sa, d, s0, other_dim=None):
     m = cell["method"]
     n = len(idx)
     h = zlib.crc32(cell["id"].encode())
     as_array = h % 2 == 0
+    if m == "like" and other_dim is None:
+        # every target dimension; the other vector in a generated stored system, flavor and backend - like() takes the
+        # dimension from it and nothing else (imputed coordinates are z = 0, t = 0 whatever the other vector stores)
+        for k, td in enumerate((2, 3, 4)):
+            _check_dim(cell, ctx, fail, v, idx, subs, rows, exact, be, mp_, mom, tol, sa, d, subs[idx[k % len(idx)]], other_dim=td)
+        return
     if m == "like":
-        td = s0["other_dim"]
-        other = mpbackend.make(opcheck.CART[td], tuple(1.5 + k for k in range(td)), False, False)
+        td = other_dim
+        osys = R.SYSTEMS[td][s0.get("other_sys", 0) % len(R.SYSTEMS[td])]
+        ocart = tuple(mpf(1.5 + k) for k in range(td))
+        ostored = tuple(float(x) for x in R.from_cartesian(osys, ocart))
+        if s0.get("other_np"):
+            other = build.make("numpy", osys, [ostored] * (n if be == "numpy" else 1), momentum=bool(s0.get("other_mom")))
+        else:
+            other = mpbackend.make(osys, ostored, bool(s0.get("other_mom")), False)
         call = lambda **kw: v.like(other)  # noqa: E731
         kwargs = {}
     else:
